@@ -382,3 +382,14 @@ func compact(l []*State) []*State {
 	}
 	return out
 }
+
+// Keys lists the fact keys of the state in sorted order.
+func (s *State) Keys() []string { return sortedKeys(s.facts) }
+
+// GetVar returns the fact about a variable, following the path it currently denotes (v := path).
+func (s *State) GetVar(key string) *Fact {
+	if a := s.facts["val:"+key]; a != nil && a.Alias != nil {
+		return s.facts[a.Alias.Key]
+	}
+	return s.facts[key]
+}
